@@ -49,14 +49,33 @@ COMPONENTS = {
     "stub": ["random.choice/sample/shuffle/... (SimRandom)", "clock: sys.monitoring line counter"],
 }
 
-_ENVS: Dict[Tuple[int, bool], jp.JSONPathEnvironment] = {}
+_ENVS: Dict[Tuple[int, bool, str], jp.JSONPathEnvironment] = {}
+# the ways a user configures the limit (and the mode): all of them are "the environment's"
+CONFIG_MODES = ("class", "class", "instance", "inherited", "instance-over-class")
 
 
-def env_for(limit: int, nondet: bool) -> jp.JSONPathEnvironment:
-    key = (limit, nondet)
+def env_for(limit: int, nondet: bool, how: str = "class") -> jp.JSONPathEnvironment:
+    key = (limit, nondet, how)
     if key not in _ENVS:
-        cls = type(f"Env_L{limit}_{'N' if nondet else 'D'}", (jp.JSONPathEnvironment,), {"max_recursion_depth": limit, "nondeterministic": nondet})
-        _ENVS[key] = cls()
+        name = f"Env_L{limit}_{'N' if nondet else 'D'}"
+        if how == "instance":
+            # attributes set on a plain environment object after construction
+            env = jp.JSONPathEnvironment()
+            env.max_recursion_depth = limit
+            env.nondeterministic = nondet
+        elif how == "inherited":
+            # configured on a base class; the environment is an instance of a subclass of it
+            base = type(name + "_base", (jp.JSONPathEnvironment,), {"max_recursion_depth": limit, "nondeterministic": nondet})
+            env = type(name + "_sub", (base,), {})()
+        elif how == "instance-over-class":
+            # the class says one thing, the object another: the object's setting is the environment's
+            cls = type(name, (jp.JSONPathEnvironment,), {"max_recursion_depth": limit + 7, "nondeterministic": not nondet})
+            env = cls()
+            env.max_recursion_depth = limit
+            env.nondeterministic = nondet
+        else:
+            env = type(name, (jp.JSONPathEnvironment,), {"max_recursion_depth": limit, "nondeterministic": nondet})()
+        _ENVS[key] = env
     return _ENVS[key]
 
 
@@ -328,7 +347,7 @@ def gen_scenario(rng, tier: str) -> Dict[str, Any]:
             segs.append({"k": "child", "sels": [rng.choice(PREFIX_SELS)], "sh": False})
         elif rng.random() < 0.08 and L <= 60:
             segs.append({"k": "desc", "sels": rng.choice(DESC_SELS[:3]), "sh": rng.random() < 0.5})
-    sc = {"L": L, "nondet": nondet, "spec": spec, "shape": shape, "query": {"segs": segs}}
+    sc = {"L": L, "nondet": nondet, "spec": spec, "shape": shape, "query": {"segs": segs}, "config": rng.choice(CONFIG_MODES)}
     if shape["class"] == "chain":
         sc["chain"] = chain
     return sc
@@ -352,7 +371,7 @@ def evaluate(sc: Dict[str, Any], sseed: int, profile: Dict[str, Any], feed: Opti
     gsize = len(sc["spec"]["graph"]) if "graph" in sc["spec"] else D.count_nodes(doc)
     factor = 1 if exp.get("max_nesting") != N.INF else min(L, 300)
     cap = max(300_000, 400 * (work + gsize * len(qast["segs"]) * factor))
-    env = env_for(L, sc["nondet"])
+    env = env_for(L, sc["nondet"], sc.get("config", "class"))
     sim = simrandom.SimRandom(sseed, profile, feed)
     simrandom.install(sim)
     clock = StepClock(cap)
@@ -435,6 +454,7 @@ def run_one(seed: int, tier: str, index: int) -> Dict[str, Any]:
     mode = "nondet" if sc["nondet"] else "det"
     st[f"mode_{mode}"] += 1
     st[f"shape_{sc['shape']['class']}"] += 1
+    st[f"limit_configured_{sc.get('config', 'class')}"] += 1
     st[f"expected_{ev['exp']['status']}"] += 1
     st[f"observed_{ev['obs']['status']}"] += 1
     st["decisions"] += len(ev["trace"])
